@@ -1023,6 +1023,7 @@ static void run_chan_trial(trial_t *t)
 			if (t->drainer.style == DS_HANGUP) { l = strlen(t->desc); snprintf(t->desc + l, sizeof(t->desc) - l, " after %zu bytes", t->drainer.hang_after); }
 		}
 	}
+	if (t->directed) vf_emit("sample", "\"directed\":\"pipe-hangup\",\"scenario\":\"%s\"", t->desc);
 	/* ---- run */
 	vf_watch_begin("io:channel-trial", 0);
 	for (int i = 0; i < npre; i++) {
@@ -1187,6 +1188,7 @@ static void run_conv_trial(trial_t *t)
 			snprintf(t->desc + l, sizeof(t->desc) - l, ", drainer %s after %zu", ds_names[t->drainer.style], t->drainer.hang_after);
 		}
 	}
+	if (t->directed) vf_emit("sample", "\"directed\":\"pipe-hangup\",\"scenario\":\"%s\"", t->desc);
 	vf_watch_begin("io:convenience-trial", 0);
 	if (t->dir == K_READ) {
 		int rounds = 0, eof = 0;
